@@ -54,7 +54,7 @@ TARGETS += [
     dict(coq="src_tagged_hash", file="bitcoinutils/utils.py", qual="tagged_hash", params=[("data", "bytes"), ("tag", "str")], ret="bytes",
          sha=True, fallback="fun sha256 data tag => Ok (Sighash.tagged_hash sha256 data tag)"),
     dict(coq="src_schnorr_tagged_hash", file="bitcoinutils/schnorr.py", qual="tagged_hash", params=[("tag", "str"), ("msg", "bytes")],
-         ret="bytes", sha=True, register=False, fallback="fun sha256 tag msg => Ok (Sighash.tagged_hash sha256 msg tag)"),
+         ret="bytes", sha=True, register=False, tiefile="tagged_hash", fallback="fun sha256 tag msg => Ok (Sighash.tagged_hash sha256 msg tag)"),
     dict(coq="src_tapbranch_tagged_hash", file="bitcoinutils/utils.py", qual="tapbranch_tagged_hash",
          params=[("thashed_a", "bytes"), ("thashed_b", "bytes")], ret="bytes", sha=True,
          fallback="fun sha256 a b => Ok (Taproot.tapbranch_tagged_hash sha256 a b)"),
@@ -62,15 +62,37 @@ TARGETS += [
          ret="bytes", sha=True, fallback="fun sha256 s => of_option (Taproot.tapleaf_tagged_hash sha256 s)"),
 ]
 
+_HDR = [("version", "int"), ("previous_block_hash", "bytes"), ("merkle_root", "bytes"), ("timestamp", "int"), ("target_bits", "int"), ("nonce", "int")]
+TARGETS += [
+    dict(coq="src_get_target_bits", file="bitcoinutils/block.py", qual="BlockHeader.get_target_bits", params=[], selfattrs=[("target_bits", "int")],
+         ret="hexint", tiefile="block_header", fallback="fun bits => of_option (Block.get_target (Block.Build_header 0 [] [] 0 bits 0))"),
+    dict(coq="src_serialize_header", file="bitcoinutils/block.py", qual="BlockHeader.serialize_header", params=[], selfattrs=_HDR, ret="bytes",
+         callable_method=True, tiefile="block_header", fallback="fun v p m t b n => of_option (Block.serialize_header (Block.Build_header v p m t b n))"),
+    dict(coq="src_get_block_hash", file="bitcoinutils/block.py", qual="BlockHeader.get_block_hash", params=[], selfattrs=_HDR, ret="bytes", sha=True,
+         tiefile="block_header", fallback="fun sha256 v p m t b n => of_option (Block.get_block_hash sha256 (Block.Build_header v p m t b n))"),
+]
+
 COQTY = {"int": "Z", "bytes": "bytes", "hexbytes": "bytes", "bool": "bool", "int*int": "(Z * Z)", "unit": "unit",
          "utf8": "bytes",          # a str that the code only ever .encode("utf-8")s: the model takes those bytes
          "str": "string",          # a str used as a tag: str.encode() of an ASCII tag is Sighash.str_bytes
-         "script": "(list tok)"}   # a Script object: its .to_bytes() is the model's Script.to_bytes (tied by C02)
+         "script": "(list tok)",
+         "hexint": "Z"}            # an int returned as f"{x:064x}": the integer that is printed   # a Script object: its .to_bytes() is the model's Script.to_bytes (tied by C02)
 STRUCT = {"<B": 1, "<H": 2, "<I": 4, "<L": 4, "<Q": 8, "B": 1}
+
+
+METHODS = {}
 
 
 class Unsupported(Exception):
     pass
+
+
+def tie_file_of(coqname):
+    """coq/Proofs/Tie_<x>.v that holds the tie lemma of a translated function"""
+    for t in TARGETS:
+        if t["coq"] == coqname:
+            return "Proofs/Tie_%s.v" % t.get("tiefile", coqname[len("src_"):])
+    return "Proofs/Tie_%s.v" % coqname[len("src_"):]
 
 
 def tables():
@@ -103,6 +125,7 @@ class Tr:
     def __init__(self, target, consts, known):
         self.t = target
         self.consts = consts
+        self.methods = {}             # method name -> (coq name, self attributes, ret type, hashes?) of translated methods callable on self
         self.known = known            # qualname tail -> (coq name, param types, ret type) of functions translated before
         self.env = {}                 # python local -> (coq ident, type)
         self.n = 0
@@ -223,6 +246,15 @@ class Tr:
             texts = [self.truthy(a, ta) for _, a, ta in parts]
             j = " && " if isinstance(e.op, ast.And) else " || "
             return parts[0][0], "(" + j.join(texts) + ")", "bool"
+        if isinstance(e, ast.JoinedStr):
+            # f"{x:064x}": the hexadecimal rendering of an int -- represented by the int itself
+            if (len(e.values) == 1 and isinstance(e.values[0], ast.FormattedValue) and e.values[0].conversion == -1
+                    and isinstance(e.values[0].format_spec, ast.JoinedStr) and len(e.values[0].format_spec.values) == 1
+                    and isinstance(e.values[0].format_spec.values[0], ast.Constant) and e.values[0].format_spec.values[0].value == "064x"):
+                p, a, ta = self.expr(e.values[0].value)
+                if ta != "int": raise Unsupported("formatted value of %s" % ta)
+                return p, a, "hexint"
+            raise Unsupported("f-string")
         if isinstance(e, ast.IfExp):
             pc, c, tc = self.expr(e.test)
             p1, a, ta = self.expr(e.body); p2, b, tb = self.expr(e.orelse)
@@ -340,6 +372,11 @@ class Tr:
             if tn != "int": raise Unsupported("to_bytes length")
             t = self.fresh()
             return p + q + [("opt", t, "py_to_bytes_le %s %s" % (a, n))], t, "bytes"
+        # bytes.fromhex(x) on a value held as bytes: hex transport, the identity
+        if (isinstance(f, ast.Attribute) and f.attr == "fromhex" and isinstance(f.value, ast.Name) and f.value.id == "bytes" and len(e.args) == 1):
+            p, a, ta = self.expr(e.args[0])
+            if ta != "bytes": raise Unsupported("bytes.fromhex of %s" % ta)
+            return p, a, "bytes"
         # b.hex() on bytes: hex transport, the identity on the byte string
         if isinstance(f, ast.Attribute) and f.attr == "hex" and not e.args and not e.keywords:
             p, a, ta = self.expr(f.value)
@@ -369,6 +406,15 @@ class Tr:
             return p + [("opt", t, "py_unpack_le %d %s" % (size, a))], t, "unpacked"
         # a call of a function translated earlier: f(args) or self.f(args)
         name = f.id if isinstance(f, ast.Name) else (f.attr if isinstance(f, ast.Attribute) and isinstance(f.value, ast.Name) and f.value.id == "self" else None)
+        if isinstance(f, ast.Attribute) and name in self.methods and not e.args and not e.keywords:
+            coq, attrs, rty, sha = self.methods[name]
+            if sha and not self.t.get("sha"): raise Unsupported("call of a hashing method")
+            args = []
+            for a_, ty in attrs:
+                if "self." + a_ not in self.env or self.env["self." + a_][1] != ty: raise Unsupported("method call needs attribute %s" % a_)
+                args.append(self.env["self." + a_][0])
+            t = self.fresh()
+            return [("res", t, "%s%s %s" % (coq, " sha256" if sha else "", " ".join(args)))], t, rty
         if name in self.known:
             coq, ptys, rty = self.known[name][:3]
             if len(self.known[name]) > 3 and self.known[name][3]:
@@ -457,7 +503,7 @@ class Tr:
             else:
                 raise Unsupported("assignment target")
             pre, a, ta = self.expr(val)
-            if ta not in ("int", "bytes", "bool"):
+            if ta not in ("int", "bytes", "bool", "hexint"):
                 raise Unsupported("assignment of %s" % ta)
             saved = dict(self.env)
             ident = self.bind(key, a, ta)
@@ -536,6 +582,7 @@ def translate(target, repo, consts, known):
     # defaults are part of the interface: record them in the output for the tie theorems
     defaults = [ast.unparse(d) for d in args.defaults]
     tr = Tr(target, consts, known)
+    tr.methods = dict(METHODS)
     binders = ["(sha256 : bytes -> bytes)"] if target.get("sha") else []
     for p, ty in target["params"]:
         tr.env[p] = (p + "_", "bytes" if ty == "hexbytes" else ty)
@@ -553,7 +600,7 @@ def main():
     consts = tables()
     out = ["(* GENERATED by harness/gen_src.py from the source files of the tree under test -- do not edit. *)",
            "From Coq Require Import String ZArith List Bool.",
-           "From BU Require Import Lib.Bytes Lib.PySem Gen.Tables Model.Varint Model.Script Model.Seq Model.Tx Model.Sighash Model.Msg Model.Taproot.",
+           "From BU Require Import Lib.Bytes Lib.PySem Gen.Tables Model.Varint Model.Script Model.Seq Model.Tx Model.Block Model.Sighash Model.Msg Model.Taproot.",
            "Import ListNotations.", "Open Scope list_scope.", "Open Scope Z_scope.", "",
            ""]
     known = {}
@@ -572,6 +619,8 @@ def main():
             out.append("(* %s:%s NOT TRANSLATED (%s): falls back to the model *)" % (t["file"], t["qual"], str(e).replace("*)", "* )")))
             out.append("Definition %s := %s." % (t["coq"], t["fallback"]))
         out.append("")
+        if t.get("callable_method"):
+            METHODS[t["qual"].split(".")[-1]] = (t["coq"], t["selfattrs"], t["ret"], t.get("sha", False))
         if t.get("register", True):
             known[t["qual"].split(".")[-1]] = (t["coq"], [ty for _, ty in t["params"]] + [ty for _, ty in t.get("selfattrs", [])], t["ret"], t.get("sha", False))
         if t.get("selfattrs") and t.get("register", True):
